@@ -133,17 +133,28 @@ func Exec(t *testing.T, sc Scenario, r *evid.Run) *evid.Failure {
 		}
 		// ---- observation to cancel (registered normally first)
 		var obs client.Observation
-		if sc.Op == "cancelobs" {
+		var obsTok []byte
+		var cbArmed atomic.Bool   // cancelobs-cb: the next notification's callback calls Cancel itself
+		var cbCtx context.Context // written before cbArmed is set
+		var cbErr error
+		cbReturned := make(chan struct{})
+		if sc.Op == "cancelobs" || sc.Op == "cancelobs-cb" {
 			done := make(chan struct{})
 			go func() {
 				defer close(done)
 				ctx, cancel := context.WithTimeout(context.Background(), 5*time.Second)
 				defer cancel()
-				obs, _ = cc.Observe(ctx, "/obs", func(*pool.Message) {})
+				obs, _ = cc.Observe(ctx, "/obs", func(*pool.Message) {
+					if cbArmed.CompareAndSwap(true, false) {
+						cbErr = obs.Cancel(cbCtx)
+						close(cbReturned)
+					}
+				})
 			}()
 			bubble.Wait()
 			for _, m := range w.FromLib() {
 				if m.Code == 1 && len(m.Token) > 0 && !bytes.Equal(m.Token, []byte{0xB1}) {
+					obsTok = append([]byte(nil), m.Token...)
 					w.ToLib(wire.Respond(w, m, 69, []refcodec.Opt{peer.Opt(6, []byte{1})}, []byte("o"), &nextMID))
 				}
 			}
@@ -221,6 +232,24 @@ func Exec(t *testing.T, sc Scenario, r *evid.Run) *evid.Failure {
 				_, opErr = cc.Observe(ctx, "/x", func(*pool.Message) {})
 			case "cancelobs":
 				opErr = obs.Cancel(ctx)
+			case "cancelobs-cb":
+				// the application cancels from inside the observe callback (on the receive goroutine)
+				select {
+				case <-cc.Done(): // already closed (pre-closed scenarios): no callback will ever run
+					opErr = obs.Cancel(ctx)
+					return
+				default:
+				}
+				cbCtx = ctx
+				cbArmed.Store(true)
+				nextMID++
+				n := refcodec.Msg{Code: 69, Token: obsTok, Opts: []refcodec.Opt{peer.Opt(6, []byte{2})}, Payload: []byte("n")}
+				if w.Datagram() {
+					n.Type, n.MID = peer.NON, nextMID&0xffff
+				}
+				w.ToLib(n)
+				<-cbReturned
+				opErr = cbErr
 			case "ping":
 				opErr = cc.Ping(ctx)
 			case "write-con", "write-non":
@@ -422,7 +451,7 @@ func Exec(t *testing.T, sc Scenario, r *evid.Run) *evid.Failure {
 func gen(t *rapid.T) Scenario {
 	sc := Scenario{
 		Transport:  rapid.SampledFrom([]string{"udp", "tcp"}).Draw(t, "transport"),
-		Op:         rapid.SampledFrom([]string{"get", "post-bw", "post-big", "observe", "cancelobs", "ping", "write-con", "write-non"}).Draw(t, "op"),
+		Op:         rapid.SampledFrom([]string{"get", "post-bw", "post-big", "observe", "cancelobs", "cancelobs-cb", "ping", "write-con", "write-non"}).Draw(t, "op"),
 		Interrupt:  rapid.SampledFrom([]string{"cancel", "deadline", "close", "peerclose"}).Draw(t, "interrupt"),
 		Pre:        rapid.IntRange(0, 5).Draw(t, "pre") == 0,
 		Queued:     rapid.SampledFrom([]string{"", "", "", "limiter", "nstart"}).Draw(t, "queued"),
@@ -464,7 +493,7 @@ func TestCheck(t *testing.T) {
 	engines = append(engines, serverEngines()...)
 	engines = append(engines, realEngine())
 	r.Main(evid.Meta{
-		Rule:        "interrupt: a client connection (datagram / stream) in a synctest bubble runs one blocking operation (GET, block-wise POST, large POST, observe registration, observation cancel, ping, confirmable / non-confirmable one-way write), optionally queued behind the parallel-request limiter or NSTART, against a scripted peer (silent, ACK only, unrelated traffic, first j blocks then silence, stops reading, closes); quiescence establishes that the call is blocked; then the interruption (context cancel, context deadline, local Close from 1-4 goroutines, peer close), before or during the call; after 5 virtual seconds and one housekeeping tick the call must have returned with an error; then Close (twice, concurrently): returns, done signal closed, every on-close callback ran exactly once, other calls on the connection ended, no library goroutine left blocked. servers: tcp and dtls servers on in-memory listeners with clients in flight, Stop from several goroutines, Serve returns. real: GET / observe registration against a handler that never answers, and Server.Discover against a silent peer, over UDP, DTLS-PSK, TCP and TLS loopback sockets with the library's own servers and Dial clients, interrupted by cancel, deadline, Close from 1-4 goroutines or server Stop; 5 real seconds of allowance; a failure counts only if it reproduces three times in a row. Non-trivial = the call was really blocked at the interruption (class block/really-blocked); all scenarios are distinct by construction of the key",
+		Rule:        "interrupt: a client connection (datagram / stream) in a synctest bubble runs one blocking operation (GET, block-wise POST, large POST, observe registration, observation cancel (from the application's goroutine and from inside the observe callback), ping, confirmable / non-confirmable one-way write), optionally queued behind the parallel-request limiter or NSTART, against a scripted peer (silent, ACK only, unrelated traffic, first j blocks then silence, stops reading, closes); quiescence establishes that the call is blocked; then the interruption (context cancel, context deadline, local Close from 1-4 goroutines, peer close), before or during the call; after 5 virtual seconds and one housekeeping tick the call must have returned with an error; then Close (twice, concurrently): returns, done signal closed, every on-close callback ran exactly once, other calls on the connection ended, no library goroutine left blocked. servers: tcp and dtls servers on in-memory listeners with clients in flight, Stop from several goroutines, Serve returns. real: GET / observe registration against a handler that never answers, and Server.Discover against a silent peer, over UDP, DTLS-PSK, TCP and TLS loopback sockets with the library's own servers and Dial clients, interrupted by cancel, deadline, Close from 1-4 goroutines or server Stop; 5 real seconds of allowance; a failure counts only if it reproduces three times in a row. Non-trivial = the call was really blocked at the interruption (class block/really-blocked); all scenarios are distinct by construction of the key",
 		Assumptions: []string{"connections built over a caller-owned socket without WithCloseSocket are out of domain", "write stalls are generated with a socket-like bounded buffer, not a zero-buffer pipe"},
 		Floor:       300,
 	}, engines...)
